@@ -12,6 +12,8 @@ Extension of the structural CCSDS model (`Model/Ccsds.lean`, where every date is
 * `oemDumpForm` — the OEM writers and the form of the points they are given (the XML writer reads `x … vz` directly).
 * `kepManWritten` — Keplerian maneuvers (`da/di/dOmega`, no delta-v vector of their own) handed to the OPM writers.
 
+* `centerWrite / centerRead` — CENTER_NAME of a frame centred elsewhere than on the Earth: CamelCase split + upper case against
+                `title().replace(" ", "")`; which names the KVN / XML writers split is regenerated (`kvnCenterPats`, `xmlCenterPats`).
 * `udKeyOut / udKeyIn` — the `USER_DEFINED_` prefix of the KVN keys (the structural model keeps user-defined fields in a sub-dict).
 
 No Mathlib import: linked into the native driver.
@@ -104,5 +106,49 @@ def udKeyOut (name : List Char) : List Char := udWritePrefix.toList ++ name
 /-- the readers: `if k.startswith("USER_DEFINED"): ud[k[13:]] = …` (`udReadPrefix`, `udReadSkip`, regenerated) -/
 def udKeyIn (key : List Char) : Option (List Char) :=
   if udReadPrefix.toList.isPrefixOf key then some (key.drop udReadSkip) else none
+
+/-! ### CENTER_NAME: the writers' CamelCase split and the readers' `title().replace(" ", "")` -/
+
+def isUp (c : Char) : Bool := 'A' ≤ c ∧ c ≤ 'Z'
+def isLow (c : Char) : Bool := 'a' ≤ c ∧ c ≤ 'z'
+def isDig (c : Char) : Bool := '0' ≤ c ∧ c ≤ '9'
+def up (c : Char) : Char := if isLow c then Char.ofNat (c.toNat - 32) else c
+def low (c : Char) : Char := if isUp c then Char.ofNat (c.toNat + 32) else c
+
+/-- `" ".join(re.findall("[A-Z][^A-Z]*", s))`: what precedes the first capital is dropped, a blank goes before every later capital -/
+def camelSplit : List Char → Bool → List Char
+  | [], _ => []
+  | c :: r, started =>
+    if isUp c then (if started then [' ', c] else [c]) ++ camelSplit r true
+    else if started then c :: camelSplit r true else camelSplit r false
+
+def isInfix (p : List Char) : List Char → Bool
+  | [] => p.isEmpty
+  | c :: r => p.isPrefixOf (c :: r) || isInfix p r
+
+/-- `L` followed by a digit somewhere (`re.search(r"L\d", s)`) -/
+def hasLDigit : List Char → Bool
+  | 'L' :: d :: r => isDig d || hasLDigit (d :: r)
+  | _ :: r => hasLDigit r
+  | [] => false
+
+/-- one alternative of the writers' test (`re.search(r"Barycenter|L\d", name)` / `"Barycenter" in name`), as regenerated: the text
+`L\d` stands for the pattern, any other text for itself -/
+def patMatch (pat : String) (name : List Char) : Bool :=
+  if pat = "L\\d" then hasLDigit name else isInfix pat.toList name
+
+/-- CENTER_NAME as a writer prints it: split at the capitals when one of its patterns is found, then upper case -/
+def centerWrite (pats : List String) (name : List Char) : List Char :=
+  ((if pats.any (fun p => patMatch p name) then camelSplit name false else name).map up)
+
+/-- `str.title()` on ASCII: a letter after a letter is lowered, any other letter is raised -/
+def titleCase : List Char → Bool → List Char
+  | [], _ => []
+  | c :: r, prevLetter =>
+    let letter := isUp c || isLow c
+    (if letter then (if prevLetter then low c else up c) else c) :: titleCase r letter
+
+/-- the readers: `center.title().replace(" ", "")` (used when `center.lower() != "earth"`) -/
+def centerRead (text : List Char) : List Char := (titleCase text false).filter (· ≠ ' ')
 
 end BeyondVerif.CcsdsExt
